@@ -11,7 +11,7 @@ for s in "$@"; do
   pid=${s%%-*}
   extra=$(python3 -c "import json;print(' '.join(json.load(open('$d/meta.json')).get('also_run',[])))")
   for p in $pid $extra; do
-    git -C /repo apply $d/patch.diff || { echo -e "$s\t$p\tPATCH-DOES-NOT-APPLY" >> $out; continue; }
+    git -C /repo apply /verif/$d/patch.diff || { echo -e "$s\t$p\tPATCH-DOES-NOT-APPLY" >> $out; continue; }
     VERIF_EVIDENCE_DEV=1 ./check $p quick > /tmp/seedpass.$$ 2>&1; rc=$?
     git -C /repo checkout -- .
     v=$(grep -a -m1 "^VIOLATION" /tmp/seedpass.$$)
